@@ -173,23 +173,16 @@ def nearOnSeg (a b q : Pt) : Bool :=
 def slackSq : Rat := 1 / 1000000
 
 def judgeClosest (a b p : Pt) (out : List String) : String :=
-  match closestPoint a b p, out with
-  | none, [x, y] =>
-    if isNonFinite x && isNonFinite y then
-      -- the model reproduces the code (0/0); the property wants the single point of the segment
-      "bad:closest-degenerate-segment-nan"
-    else match rats [x, y] with
-      | some [qx, qy] => if nearPt ⟨qx, qy⟩ a then "bad:corr-closest" else "bad:corr-closest"
-      | _ => "bad:unparsable-answer"
-  | some m, [x, y] => match rats [x, y] with
+  match out with
+  | [x, y] => match rats [x, y] with
       | some [qx, qy] =>
         let q : Pt := ⟨qx, qy⟩
         if !nearOnSeg a b q then "bad:closest-not-on-segment"
         else if !minimalOnSamples a b p q slackSq then "bad:closest-not-minimal"
-        else if !nearPt q m then "bad:corr-closest"
+        else if !nearPt q (closestPoint a b p) then "bad:corr-closest"
         else "ok"
-      | _ => "bad:unparsable-answer"
-  | _, _ => "bad:unparsable-answer"
+      | _ => if isNonFinite x || isNonFinite y then "bad:closest-not-finite" else "bad:unparsable-answer"
+  | _ => "bad:unparsable-answer"
 
 def judgeCentroid (which : String) (l : List Pt) (out : List String) : String :=
   let m := match which with
